@@ -10,6 +10,7 @@ Decides:
                       handled at the look-ahead pull in fusion(), so the first instruction does not depend on trailing bytes
   4 SIBLING           the three Binary Ninja hooks and the emulator fetch call the same decoder and handle the same exception set
   5 EXHAUSTIVE        both opcode tables have exactly 256 rows (index == opcode on the Rust side)
+  6 MEMO              no decode consumer returns a value remembered across calls under a key that omits an input (sa/memo.py)
 """
 from __future__ import annotations
 
